@@ -166,6 +166,61 @@ def checkElse (sc : Scope) (asg : List S) : Option (List Stmt) → Option Flow
   | some e => checkList sc asg e
 end
 
+/-! ### the same checker with Python's rule taken literally -/
+
+/-- a name bound anywhere in the body is local: it must be definitely assigned, whatever the closure holds -/
+def Scope.readOkPy (sc : Scope) (asg : List S) (n : S) : Bool :=
+  if sc.locals.contains n then asg.contains n else sc.outer.contains n
+
+def Scope.readsOkPy (sc : Scope) (asg : List S) (ns : List S) : Bool := ns.all (sc.readOkPy asg)
+
+def checkPartsPy (sc : Scope) : List S → List Part → Option (List S)
+  | asg, [] => some asg
+  | asg, p :: r => if sc.readsOkPy asg p.reads then checkPartsPy sc (p.writes ++ asg) r else none
+
+mutual
+def Stmt.checkPy (sc : Scope) (asg : List S) : Stmt → Option Flow
+  | .line parts => (checkPartsPy sc asg parts).map some
+  | .comment _ => some (some asg)
+  | .exit _ rs => if sc.readsOkPy asg rs then some none else none
+  | .if_ _ cr thn elifs els =>
+      if sc.readsOkPy asg cr then
+        match checkListPy sc asg thn, checkElifsPy sc asg elifs, checkElsePy sc asg els with
+        | some a, some b, some c => some ((a.meet b).meet c)
+        | _, _, _ => none
+      else none
+  | .for_ t _ ir body =>
+      if sc.readsOkPy asg ir then
+        match checkListPy sc (t :: asg) body with
+        | some _ => some (some asg)
+        | none => none
+      else none
+  | .try_ body _ er asName handler =>
+      if sc.readsOkPy asg er then
+        match checkListPy sc asg body, checkListPy sc (safePrefixWrites body ++ asNames asName ++ asg) handler with
+        | some a, some b => some (a.meet b)
+        | _, _ => none
+      else none
+def checkListPy (sc : Scope) (asg : List S) : List Stmt → Option Flow
+  | [] => some (some asg)
+  | s :: r =>
+    match s.checkPy sc asg with
+    | none => none
+    | some none => some none
+    | some (some a) => checkListPy sc a r
+def checkElifsPy (sc : Scope) (asg : List S) : List (S × List S × List Stmt) → Option Flow
+  | [] => some none
+  | (_, cr, body) :: r =>
+    if sc.readsOkPy asg cr then
+      match checkListPy sc asg body, checkElifsPy sc asg r with
+      | some a, some b => some (a.meet b)
+      | _, _ => none
+    else none
+def checkElsePy (sc : Scope) (asg : List S) : Option (List Stmt) → Option Flow
+  | none => some (some asg)
+  | some e => checkListPy sc asg e
+end
+
 /-! ### the generator -/
 
 open DW.GenDump (PathPart LitV)
@@ -316,6 +371,10 @@ def builtinsRead : List S := [t "KeyError", t "TypeError", t "isinstance", t "di
 def genScope (p : Char → Bool) (g : LIn) : Scope :=
   { locals := t "o" :: writesList (genBody p g)
     outer := genLocals g ++ genGlobals g ++ builtinsRead }
+
+/-- … under Python's rule taken literally -/
+def wellScopedPy (p : Char → Bool) (g : LIn) : Bool :=
+  (checkListPy (genScope p g) [t "o"] (genBody p g)).isSome
 
 /-- is the generated function well scoped? (`some _`: no unbound read on any path) -/
 def wellScoped (p : Char → Bool) (g : LIn) : Bool :=
